@@ -217,10 +217,25 @@ impl DMatrix {
   /// set of initialised columns (ghost); everything nalgebra hands out is fully initialised except `uninit`
   pub uninterp spec fn initd(&self) -> Set<int>;
   pub open spec fn all_init(&self) -> bool { forall |j: int| 0 <= j < self@.c ==> #[trigger] self.initd().contains(j) }
-  /// every entry is a finite IEEE value; established only by `is_all_finite`
+  /// every entry is a finite IEEE value; established only by `is_all_finite` (verified from its real text in unit `core`)
   pub open spec fn fin(&self) -> bool { fin_m(self@) }
   pub open spec fn ok(&self) -> bool { self.all_init() }
 }
+impl DMatrix {
+  /// "entry i (column-major linear index, as `iter()` and `Index<usize>` count) is a finite IEEE value" (ghost)
+  pub uninterp spec fn efin(&self, i: int) -> bool;
+}
+/// the matrix-level finiteness predicate is the conjunction of the entry-level one (definition of "all entries finite")
+#[verifier::external_body]
+pub proof fn axiom_fin_entrywise(m: &DMatrix)
+  ensures m.fin() <==> (forall |i: int| 0 <= i < m@.r * m@.c ==> #[trigger] m.efin(i)) {}
+/// nalgebra Index<usize> (base/indexing.rs): the i-th element in column-major order; panics when out of bounds.
+/// `matrix.iter()` visits exactly these elements in this order (rule X15).
+impl vstd::std_specs::core::IndexSpecImpl<usize> for DMatrix {
+  open spec fn index_req(&self, index: &usize) -> bool { self.ok() && *index < self@.r * self@.c }
+}
+impl core::ops::Index<usize> for DMatrix { type Output = Sc;
+  #[verifier::external_body] fn index(&self, index: usize) -> (r: &Sc) ensures r.fin() == self.efin(index as int) { unimplemented!() } }
 /// representation facts of every allocated matrix: rectangular, and r*c elements fit the address space
 #[verifier::external_body]
 pub broadcast proof fn axiom_dm_wf(m: &DMatrix)
@@ -705,15 +720,6 @@ pub open spec fn routed(p: Seq<real>, idx: Seq<usize>) -> Seq<real> { Seq::new(i
 /// the mathematical set of the strings inserted
 #[verifier::external_body]
 pub proof fn axiom_name_key_model() ensures vstd::std_specs::hash::obeys_key_model::<&Name>() {}
-
-// =============================================================================== varpro leaves (assumed; bounded Kani validation)
-/// src/solvers/levmar/mod.rs `is_all_finite` (iterator `all` over the entries; Verus has no iterator adapters):
-/// true iff every entry is finite. Bounded validation: Kani harness `kani_is_all_finite_2x2`.
-#[verifier::external_body]
-pub fn is_all_finite(matrix: &DMatrix) -> (b: bool)
-  requires matrix.ok()
-  ensures b == matrix.fin()
-{ unimplemented!() }
 
 // =============================================================================== std helpers
 pub assume_specification<T, U> [core::option::Option::<T>::zip] (a: Option<T>, b: Option<U>) -> (r: Option<(T, U)>)
